@@ -581,3 +581,62 @@ def every_return_passes(fn_node, pred):
     if False in end:
         bad.append(fn_node)
     return (not bad), (bad[0] if bad else None)
+
+
+def complete_listing_clause(ctx, res, prop, cid, floor=1):
+    """the S3 facade lists a prefix completely: through the resource collection (`<Bucket>.objects.filter / all`, which follows every
+    page) or a paginator; a direct `list_objects*` client call answers with at most one page (1000 keys) and is accepted only in a
+    function that goes on with the continuation token"""
+    from ..report import Finding
+    from ..loader import norm
+    fac = ctx.repo.cls('S3BasicFacade')
+    c = res.clause(cid, 'R-AGREE', 'S3 listings follow every page of the answer', floor=floor)
+    n_list = 0
+    for m in fac.methods.values():
+        for n in ast.walk(m.node):
+            if not (isinstance(n, ast.Call) and isinstance(n.func, ast.Attribute)):
+                continue
+            a = n.func.attr
+            if a in ('filter', 'all') and isinstance(n.func.value, ast.Attribute) and n.func.value.attr in ('objects', 'object_versions'):
+                n_list += 1
+                c.instance('%s lists through the resource collection `%s`' % (m.name, norm(n)[:60]), m.qualname, True)
+            elif a in ('get_paginator', 'paginate'):
+                n_list += 1
+                c.instance('%s lists through a paginator' % m.name, m.qualname, True)
+            elif a in ('list_objects', 'list_objects_v2', 'list_object_versions'):
+                n_list += 1
+                follows = any(isinstance(x, ast.Constant) and x.value in ('NextContinuationToken', 'ContinuationToken', 'IsTruncated', 'NextMarker')
+                              for x in ast.walk(m.node)) and any(isinstance(l, (ast.While, ast.For)) and any(y is n for y in ast.walk(l)) for l in ast.walk(m.node))
+                c.instance('%s: `%s` continues with the continuation token' % (m.name, norm(n)[:60]), m.qualname, follows)
+                if not follows:
+                    res.add(Finding(prop, cid, 'R-AGREE', m.file, m.qualname, n.lineno, norm(n)[:100],
+                                    '`%s` answers with one page (at most 1000 keys) and nothing asks for the next one: recordings beyond the first page '
+                                    'of a prefix are never listed - lookups miss them, limits are filled from the first page only, and the same query '
+                                    'returns different sets on different cassettes' % norm(n)[:80]))
+    c.evaluations += n_list
+    return c
+
+
+def discarded_lazy_calls(ctx, within=None):
+    """expression statements that call a generator function of the package and drop the result: nothing of the function's body runs.
+    Callees are matched by method / function name when every definition of that name in the package is a generator.
+    Returns [(function info, call node, callee qualname)]"""
+    repo = ctx.repo
+    gens = {}
+    plain = set()
+    for f in repo.all_functions():
+        if f.is_generator and not any(norm(d).endswith('contextmanager') for d in f.node.decorator_list):
+            gens.setdefault(f.name, []).append(f)
+        else:
+            plain.add(f.name)
+    out = []
+    for f in repo.all_functions():
+        if within is not None and f.module.relpath not in within and f.qualname.split('.')[0] not in within:
+            continue
+        for n in walk_own(f.node):
+            if isinstance(n, ast.Expr) and isinstance(n.value, ast.Call):
+                fn_ = n.value.func
+                nm = fn_.attr if isinstance(fn_, ast.Attribute) else fn_.id if isinstance(fn_, ast.Name) else None
+                if nm in gens and nm not in plain:
+                    out.append((f, n.value, gens[nm][0].qualname))
+    return out
